@@ -8,7 +8,7 @@
      NV.CramRec.Container  build_container bookkeeping (io/writer/container.rs), Block::size and
                            write_block (io/writer/container/block.rs), record counters (io/writer.rs) *)
 From Coq Require Import List NArith.
-From NV Require Import CramRec.Features CramRec.FeaturesProofs CramRec.Container CramRec.ContainerProofs.
+From NV Require Import CramRec.Features CramRec.FeaturesProofs CramRec.FeaturesTotal CramRec.Container CramRec.ContainerProofs.
 Import ListNotations.
 Open Scope N_scope.
 
@@ -57,19 +57,57 @@ Theorem c07_record_roundtrip_partial :
     valid_sm sm -> Forall (fun o => 0 < snd o) ops -> read_len ops = len seq ->
     1 <= start -> start + ref_len ops <= len refseq + 1 ->
     cigar_to_features true refseq seq (writer_quals seq quals) ops start <> None ->
-    exists s, roundtrip sm refseq seq quals ops start = Some (simplify (norm_ops ops), s)
+    exists s, roundtrip sm refseq seq quals ops start = ROk (simplify (norm_ops ops)) s
               /\ eq_nocase_list s seq = true.
 Proof. exact roundtrip_ok. Qed.
 Print Assumptions c07_record_roundtrip_partial.
 
-(* Repaired defect (cram-mapped-read-missing-qualities-panic): cigar_to_features itself still
-   panics (None) on an empty quality vector as soon as the CIGAR has a one-base match; since the
-   fix the writer never passes one (writer_quals fills 0xff per base). *)
-Theorem c07_cigar_to_features_needs_qualities :
+(* The writer's answer for a malformed record is an error, not a panic (repaired defects
+   cram-mapped-read-missing-qualities-panic, cram-mapped-read-missing-bases-panic; /repo 9757af4):
+   in the model the composed writer+reader function answers RInvalidInput exactly when
+   cigar_to_features has no result, ... *)
+Theorem c07_roundtrip_invalid_input_iff :
+  forall sm refseq seq quals ops start,
+    roundtrip sm refseq seq quals ops start = RInvalidInput <->
+    cigar_to_features true refseq seq (writer_quals seq quals) ops start = None.
+Proof. exact roundtrip_invalid_input. Qed.
+Print Assumptions c07_roundtrip_invalid_input_iff.
+
+(* ... which never happens for a well-formed record (CIGAR read length = |SEQ|, qualities
+   missing-and-filled or of the same length, alignment inside the reference): every such record
+   is accepted, for all nine op kinds including zero-length ops ... *)
+Theorem c07_cigar_to_features_total :
+  forall qa refseq seq quals ops start,
+    1 <= start -> read_len ops = len seq -> start + ref_len ops <= len refseq + 1 ->
+    len quals = len seq ->
+    cigar_to_features qa refseq seq quals ops start <> None.
+Proof. exact cigar_to_features_total. Qed.
+Print Assumptions c07_cigar_to_features_total.
+
+(* ... and always happens (an error where the code used to panic) when a read-consuming op
+   reaches past the end of the sequence (in particular SEQ `*` with a read-consuming CIGAR: the
+   repaired class cram-mapped-read-missing-bases-panic), or a match reaches past the reference end *)
+Theorem c07_short_sequence_is_error :
+  forall qa refseq seq quals k n rest rp dp,
+    consumes_read k = true -> len seq + 1 < dp + n ->
+    c2f qa refseq seq quals ((k, n) :: rest) rp dp = None.
+Proof. exact c2f_short_sequence_is_error. Qed.
+Print Assumptions c07_short_sequence_is_error.
+
+Theorem c07_match_past_reference_is_error :
+  forall qa refseq seq quals k n rest rp dp,
+    consumes_read k = true -> consumes_reference k = true -> len refseq + 1 < rp + n ->
+    c2f qa refseq seq quals ((k, n) :: rest) rp dp = None.
+Proof. exact c2f_short_reference_is_error. Qed.
+Print Assumptions c07_match_past_reference_is_error.
+
+(* ... and when a one-base match meets an empty quality vector (what the writer
+   was handed for QUAL `*` before it filled 0xff per base: then a panic, now an error). *)
+Theorem c07_cigar_to_features_empty_qualities_is_error :
   forall qa refseq seq k rest rp dp, (k = KM \/ k = KEq \/ k = KX) ->
     c2f qa refseq seq [] ((k, 1) :: rest) rp dp = None.
 Proof. exact missing_qualities_panic. Qed.
-Print Assumptions c07_cigar_to_features_needs_qualities.
+Print Assumptions c07_cigar_to_features_empty_qualities_is_error.
 
 (* non-vacuity: the default matrix is valid; a read with a mismatch, a non-ACGTN base, an
    insertion, a deletion, clips and a pad round-trips through the model *)
@@ -84,14 +122,20 @@ Example c07_features_nonvacuous :
   let ops := [(KS,2);(KM,3);(KI,1);(KM,2);(KD,2);(KP,1);(KX,2);(KEq,1);(KH,3)] in
   read_len ops = len seq /\
   match roundtrip default_sm refseq seq quals ops 3 with
-  | Some (c, s) => c = [(KS,2);(KM,3);(KI,1);(KM,2);(KD,2);(KP,1);(KM,3);(KH,3)] /\ eq_nocase_list s seq = true
-  | None => False
+  | ROk c s => c = [(KS,2);(KM,3);(KI,1);(KM,2);(KD,2);(KP,1);(KM,3);(KH,3)] /\ eq_nocase_list s seq = true
+  | _ => False
   end.
 Proof. vm_compute. repeat split; reflexivity. Qed.
 
 Example c07_missing_qualities_now_roundtrip :
-  roundtrip default_sm [65;67;71;84] [65;67] [] [(KM, 1); (KI, 1)] 1 = Some ([(KM, 1); (KI, 1)], [65;67]).
+  roundtrip default_sm [65;67;71;84] [65;67] [] [(KM, 1); (KI, 1)] 1 = ROk [(KM, 1); (KI, 1)] [65;67].
 Proof. vm_compute. reflexivity. Qed.
+
+(* a CIGAR longer than the sequence, and a read running past the reference end: InvalidInput *)
+Example c07_invalid_input_witnesses :
+  roundtrip default_sm [65;67;71;84] [65] [30] [(KM, 2)] 1 = RInvalidInput /\
+  roundtrip default_sm [65;67;71;84] [84;84] [30;30] [(KM, 2)] 4 = RInvalidInput.
+Proof. vm_compute. split; reflexivity. Qed.
 
 Example c07_missing_qualities_witness :
   cigar_to_features true [65;67;71;84] [65;67] [] [(KM, 1); (KI, 1)] 1 = None /\
